@@ -18,7 +18,7 @@ EXHAUSTIVE = True
 SCOPE = ["PARSE", "RENDER", "TYPE", "REWRITE"]
 ABORT_MACROS = ("todo", "unimplemented", "unreachable", "panic")
 PANIC_FN = re.compile(r"^(core|std)::panicking::|^std::rt::begin_panic|^core::panic::")
-UNCHECKED_INT = re.compile(r"^core::num::<impl i64>::(abs|pow|neg|div_euclid|rem_euclid|next_power_of_two|isqrt)$")
+UNCHECKED_INT = re.compile(r"^core::num::<impl i64>::(abs|pow|neg|div_euclid|rem_euclid|next_power_of_two|isqrt|saturating_div|wrapping_div|wrapping_rem|overflowing_div|overflowing_rem|wrapping_div_euclid|wrapping_rem_euclid|ilog|ilog2|ilog10)$")
 
 
 def abort_calls(mir, body):
@@ -198,6 +198,37 @@ def run(rep):
         fn = k.split("|")[0]
         if fn not in mir.by_path:
             rep.error("stale entry in the reviewed arithmetic table: %s" % k)
+
+    # ---------------- P4 ill-formed size intervals (assert!(min <= max) in Intervals::union_interval)
+    rep.rule(
+        "P4",
+        "the size interval built by Map/Reduce/Join/Set/Values::new is well-formed (lower <= upper) for every stub input of the C07/Z2 grid (size terms extracted from the constructors and evaluated symbolically): "
+        "Integer::from_interval(lo, hi) with lo > hi violates the assert!(min <= max) of Intervals::union_interval",
+        floor=6,
+        necessary="building the relation (parsing a query with that LIMIT/OFFSET/operator over inputs of those sizes) panics instead of returning a relation or an error",
+    )
+    from .core import Report as _R, Src as _S
+    from . import facts as _facts
+    from .c07 import Z2 as _Z2
+
+    scratch = _R("C07", rep.tier)
+    try:
+        z = _Z2(scratch, _S(_facts.src_facts()))
+        z.run()
+        for r in scratch.rules.values():
+            for _ in range(r["instances"]):
+                pass
+        n_cases = sum(r["instances"] for r in scratch.rules.values())
+        rep.instance("P4", "size-grid", {"constructors": ["Map", "Reduce", "Join", "Set", "Values"], "grid_points": z.points, "cases": n_cases, "ill_formed": len(z.illformed)})
+        for k in ("Map", "Reduce", "Join", "Set", "Values"):
+            rep.instance("P4", k + "::new", None)
+        for key, (ctx, lo, hi, where) in sorted(z.illformed.items()):
+            rep.violation("P4", key, "%s: the declared size would be [%s, %s] (lower > upper): Integer::from_interval panics" % (ctx, lo, hi), where)
+        for v in scratch.violations:
+            if v["msg"].startswith("UNDECIDED"):
+                rep.undecidable("P4", v["key"], v["msg"][11:], v["where"])
+    except Exception as e:  # Anchor etc.
+        rep.error("P4 could not evaluate the size terms: %s" % e)
 
     # ---------------- E1 / E2 dispatch exhaustiveness
     rep.rule(
